@@ -121,8 +121,8 @@ CLAIMS["C20"] = dict(
     level="other",
     technique="static analysis: overload-family and intrinsic width/guard rules over the typed AST, symbolic bit-provenance evaluation of the shift/mask fall-backs, overflow-before-narrowing rule, exact rational identity test of the extracted Aggregate formulas, pre-state purity (read-after-overwrite) rule",
     text=("FAMILY-COMPLETE, INTRINSIC-WIDTH, INTRINSIC-GUARD, SIGNED-FORWARD for nine helper families x six integer types; BIT-PROVENANCE decides bswap16/32/64_generic and "
-          "rol/ror32/64_generic completely (all bits, all rotation amounts); NO-OVERFLOW-BEFORE-NARROW (found and fixed: round_down_to_power_of_two, div_ceil, round_up), BOOL-TOTAL; "
-          "Aggregate PRESTATE-PURITY (found and fixed: operator+= variance), PLUS-TWINS, COMBINE-FORMULA (exact rational evaluation that honours C++ integer division), DIV-GUARD (found and fixed: NaN for two empty operands), ADD-ORDER."),
+          "rol/ror32/64_generic completely (all bits, all rotation amounts); NO-OVERFLOW-BEFORE-NARROW (found and fixed: round_down_to_power_of_two, div_ceil, round_up), BOOL-TOTAL (is_power_of_two evaluated on the extreme and small values of each type with signed-overflow detection); "
+          "Aggregate PRESTATE-PURITY (found and fixed: operator+= variance), PLUS-COMBINES (operator+ and operator+= each evaluated on sample states: count added, mean/variance through the helpers on the pre-state, min/max of both), COMBINE-FORMULA (exact rational evaluation that honours C++ integer division), DIV-GUARD (found and fixed: NaN for two empty operands), ADD-ORDER."),
     note=(TRUST + "Not decided: the loop-based generic templates (clz/ctz/ffs/integer_log2), popcount SWAR arithmetic, agreement of intrinsics with their definition (trusted compiler), floating-point rounding."),
 )
 
@@ -147,21 +147,23 @@ CLAIMS["C19"] = dict(
 
 CLAIMS["C14"] = dict(
     level="other",
-    technique="static analysis: per-path linear effect summaries of the chunking loops (conserved quantity with guard-equality substitution), threshold/byte-order relations of finalize(), constant tables recomputed from their defining formulas, truth tables / GF(2) basis evaluation of the extracted word functions, switch-table and shift-width rules for the SipHash tail",
-    text=("PROCESS-CONSERVE, DIRECT-ONLY-EMPTY, COPY-BOUND, FLUSH-RESET for the four process() loops (independence of the digest from the chunking is exactly the conservation "
-          "of length_ + 8 curlen_ + 8 size on every path); FINAL-THRESHOLDS incl. byte order of length and state stores; HEX-FRONTENDS; CONST-TABLES (SHA-2 K/IV from roots of "
-          "primes, MD5 K from sin, schedules); BOOLFN-TABLES; ROT-SETS; SIP-TAIL for both SipHash implementations; SIMD-ALIGNMENT (no aligned vector access through the caller's byte pointers)."),
+    technique="static analysis: evaluation of the integer skeleton of process()/finalize()/the SipHash tail on a grid of buffer fills and lengths with the bytes as labels (the compression calls are observed, not executed), constant tables recomputed from their defining formulas, truth tables / GF(2) basis evaluation of the extracted word functions, switch-table and shift-width rules for the SipHash tail",
+    text=("PROCESS-STREAM / PROCESS-CONSERVE for the four process() functions: for buffer fills {0, 1, B/2, B-1} x input sizes {0, 1, B-1, B, B+1, 2B, 2B+5, 3B-1} the blocks handed to the "
+          "compression function are (buffered bytes ++ input) cut into blocks, the rest is in buf_[0, curlen_), length_ grows by 8B per block, nothing is written outside buf_, the loop ends "
+          "(independence of the digest from the chunking); FINAL-THRESHOLDS for every buffer fill 0..B-1: blocks == buffered ++ 0x80 ++ zeros ++ bit length in the digest's byte order, "
+          "one or two blocks as needed, digest == state words in the digest's byte order after the last compression; HEX-FRONTENDS; CONST-TABLES (SHA-2 K/IV from roots of "
+          "primes, MD5 K from sin, schedules); BOOLFN-TABLES; ROT-SETS; SIP-TAIL for both SipHash implementations (lengths 0..16: final word == len << 56 | tail byte j << 8j, byte shifts in 64-bit unsigned arithmetic); SIMD-ALIGNMENT (no aligned vector access through the caller's byte pointers)."),
     note=(TRUST + "Not decided: the compression rounds' dataflow (covered by the suite's vectors: any slip avalanches), SSE2 == portable SipHash beyond the tail assembly, 32-bit size parameter overflow for messages >= 4 GiB."),
 )
 
 CLAIMS["C08"] = dict(
     level="other",
-    technique="static analysis: decision tables of the tie-break comparators, orientation/source rules of the skew-correction queues and edge scans, dominating index-guard rule, structural check of the stable middle decision, twin agreement (normalised decision sets) of the partition and selection copies",
+    technique="static analysis: decision tables of the tie-break comparators and of the edge scans, must-fact dataflow over canonical linear inequalities for the index guards (safety and exactness) and the skew context of the priority queues, structural check of the stable middle decision",
     text=("Thin by nature - the halving refinement and the returned ranks are numeric. Decided: LEXI-TABLE (x4), PQ-ORIENT, EDGE-TIEBREAK, INDEX-GUARD (32 element accesses), "
           "MIDDLE-LEXI (found and fixed: partition split runs of equal elements by key only, violating the lower-sequence-first clause on 45808 of 411879 small inputs), "
-          "TWIN-AGREE between multisequence_partition and multisequence_selection (any one-sided change of a guard in the duplicated refinement is reported), "
+          "GUARD-EXACT (one guarding edge of every element access is exactly `the element exists` - a stronger test skips a candidate) and LEFT-BORDER-BOUND (a zero left border moves by K exactly when K <= seqlen), "
           "COMP-THREADED, SIGN-TEST-SIGNED (locals whose sign is tested are signed also for an unsigned rank type; the witness instantiates size_t ranks and std::greater)."),
-    note=(TRUST + "Not decided: exactness of the returned rank, left <= right, selection's value/offset (numeric refinement). TWIN-AGREE exceptions are frozen with reasons in rules/c08.py; a change made identically to both copies is not seen by it."),
+    note=(TRUST + "Not decided: exactness of the returned rank, left <= right, selection's value/offset (numeric refinement)."),
 )
 
 CLAIMS["C06"] = dict(
@@ -188,7 +190,7 @@ CLAIMS["C04"] = dict(
     text=("USE-AFTER-RELEASE over all member functions of PS5SmallsortJob / PS5BigSortStep / PS5SortStep in all instantiations (found and fixed two heap-use-after-free defects: "
           "distribute_finished touching bkt_ after the final notify; sample()/count_finished() re-reading parts_ after the last enqueue), ADD-BEFORE-ENQUEUE, HANDLE-PAIR, "
           "RMW-RESULT (incl. memory order), PHASE-ARM, COMPLETION-BARRIER, COPY-BACK, PACKED-LCP-MASK (every read of the packed splitter_lcp byte uses the builder's masks), "
-          "STALE-DATA-POINTER (a local caching member.data() is not used after a call that may re-allocate the member; found and fixed a third heap-use-after-free in sort_sample_sort). Memory-safety and hand-over conditions for every schedule and every tuning of the thresholds."),
+          "STALE-DATA-POINTER (a local caching member.data() is not used after a call that may re-allocate the member; found and fixed a third heap-use-after-free in sort_sample_sort), RESULT-ARRAY (what runs after a step's sub-sorts reads the strings from the original array, i.e. shadow() of a flipped pointer; found and fixed wrong LCP values of nested sample-sort levels). Memory-safety and hand-over conditions for every schedule and every tuning of the thresholds."),
     note=(TRUST + "Frozen table: functions running under run()'s anonymous handle. Not decided: sortedness and LCP values, full data-race freedom of the bucket arrays, termination; the ThreadPool is C10."),
 )
 
@@ -226,7 +228,7 @@ CLAIMS["C03"] = dict(
     text=("Sorted-permutation and exact LCP values are value-level and NOT decided. Decided necessary conditions over all 10 pointer/set instantiations of the five radix loops, "
           "the step constructors, multikey quicksort, insertion sort and the public overloads: HOME-BEFORE-INPLACE, BUCKET-DISPOSED (each non-empty bucket handed on exactly once as "
           "[pos, +bkt_size), position advanced once), DEPTH-ADVANCE (depth + k*stack size for the k-byte radix, final-bucket LCP run), BUCKET-RANGE, STEP-BUCKET0, PREFIX-SUM-USE, "
-          "BKT-INDEX-BOUND, FALLBACK-FORWARD, FALLBACK-DAG, KEY-PACK-TABLE, CHAR-UNSIGNED, LCP-SLOT0, INSSORT-TWINS, ENTRY-FORWARD."),
+          "BKT-INDEX-BOUND, FALLBACK-FORWARD, FALLBACK-DAG, KEY-PACK-TABLE, CHAR-UNSIGNED, LCP-SLOT0, ENTRY-FORWARD."),
     note=(TRUST + "Thin by nature: the property itself (output order, permutation, LCP values) depends on string contents. CharStringSet (signed char) is not reachable from the public API and not analysed. "
           "BKT-INDEX-BOUND (forward interval analysis of the index variables of the fixed-size bucket arrays) found a one-past-the-end read in the LCP boundary loops of RadixStep_CE0/CE2/CI2 (fixed in /repo, 4243a1b)."),
 )
